@@ -92,7 +92,7 @@ func cn(c cid.Cid) string {
 	return c.String()
 }
 
-const ruleBatch = "state machine on one real CRDT replica: configuration drawn from {batching off, size-triggered (size 1-5, age 30 s), age-triggered (size 50, age 150-300 ms), small queue (1-3)}; actions pin (well-formed pins over 4 CIDs), unpin, burst of n operations, pause longer than the age, a trickle (operations every age/2 for 8 ages, fewer than the batch size), datastore fault on/off (block writes of go-ds-crdt fail); model = accepted operations in order and the committed map; oracle: errors are ErrMaxQueueSizeReached (batching on) or the injected failure (batching off) and a refused operation has no effect; once size operations are accepted, or the age elapsed, the state equals the model with all of them applied, and before that (age 30 s) it is still the previous committed state; per CID the last accepted operation wins; after faults are off and a further trigger everything accepted is applied and a sentinel pin becomes visible; the tracker's last event per CID matches; non-trivial = a batch with two operations on one CID, a queue overflow, or a fault; distinct by script"
+const ruleBatch = "state machine on one real CRDT replica: configuration drawn from {batching off, size-triggered (size 1-5, age 30 s), age-triggered (size 50, age 150-300 ms), small queue (1-3)}; actions pin (well-formed pins over 4 CIDs), unpin, burst of n operations, pause longer than the age, a trickle (operations every age/4 for 8 ages, fewer than the batch size), datastore fault on/off (block writes of go-ds-crdt fail); model = accepted operations in order and the committed map; oracle: errors are ErrMaxQueueSizeReached (batching on) or the injected failure (batching off) and a refused operation has no effect; once size operations are accepted, or the age elapsed, the state equals the model with all of them applied, and before that (age 30 s) it is still the previous committed state; per CID the last accepted operation wins; after faults are off and a further trigger everything accepted is applied and a sentinel pin becomes visible; the tracker's last event per CID matches; non-trivial = a batch with two operations on one CID, a queue overflow, or a fault; distinct by script"
 
 func TestBatching(t *testing.T) {
 	leg := ev.L("batching", ruleBatch)
@@ -298,11 +298,11 @@ func TestBatching(t *testing.T) {
 				sync("before a trickle", len(pending), len(pending), 20*time.Second)
 				var at []time.Time
 				start := time.Now()
-				for time.Since(start) < 8*age && len(at) < 40 {
+				for time.Since(start) < 8*age && len(at) < 45 {
 					if submit(true, drawPin(t)) {
 						at = append(at, time.Now())
 					}
-					time.Sleep(age / 2)
+					time.Sleep(age / 4)
 				}
 				script = append(script, fmt.Sprintf("[trickle of %d over %v]", len(at), time.Since(start).Round(time.Millisecond)))
 				due := 0
@@ -314,7 +314,7 @@ func TestBatching(t *testing.T) {
 				}
 				classes["trickle"] = true
 				classes["nontrivial"] = true
-				sync(fmt.Sprintf("operations kept arriving every %v for %v: the %d accepted more than 6 batch ages ago must have been committed by the age limit", age/2, time.Since(start).Round(time.Millisecond), due), due, len(pending), age/2)
+				sync(fmt.Sprintf("operations kept arriving every %v for %v: the %d accepted more than 6 batch ages ago must have been committed by the age limit", age/4, time.Since(start).Round(time.Millisecond), due), due, len(pending), age/2)
 			},
 			"faultOn": func(t *rapid.T) {
 				if faulty {
